@@ -19,9 +19,9 @@ rm -rf demo
 echo "== build" >> $LOG; go build ./... >> $LOG 2>&1; B=$?
 echo "== suite with change" >> $LOG; go test -vet=off -count=1 ./... 2>&1 | grep -v "no test files" >> $LOG; S=${PIPESTATUS[0]}
 for f in $DEMOS; do cp /tmp/wt/aside_$ID/$f $f; done
-echo "== demo with change (expect FAIL)" >> $LOG; go test -vet=off -count=1 -run 'Verif' $PKGS >> $LOG 2>&1; D1=$?
+echo "== demo with change (expect FAIL)" >> $LOG; go test -vet=off -count=1 -run 'Verif|Demo' $PKGS >> $LOG 2>&1; D1=$?
 git apply -R patch.diff
-echo "== demo without change (expect ok)" >> $LOG; go test -vet=off -count=1 -run 'Verif' $PKGS >> $LOG 2>&1; D0=$?
+echo "== demo without change (expect ok)" >> $LOG; go test -vet=off -count=1 -run 'Verif|Demo' $PKGS >> $LOG 2>&1; D0=$?
 git apply patch.diff
 echo "build=$B suite=$S demo_with=$D1 demo_without=$D0" | tee -a $LOG
 if [ $B -eq 0 ] && [ $S -eq 0 ] && [ $D1 -ne 0 ] && [ $D0 -eq 0 ]; then
